@@ -269,7 +269,7 @@ def _walk_real(ss, order, choice):
 
 def walk_stage(c, cfg):
   n = 600 if c.tier == 'quick' else 5000
-  reqs, meta = [], []
+  reqs, meta, defs = [], [], []
   for _ in range(n):
     names = sl.name_stream(c.rng)
     nodes = [sl.gen_tree(c.rng, names, c.rng.choice([1, 2, 3, 3]), p_child=0.85) for _ in range(c.rng.randrange(1, 4))]
@@ -317,6 +317,28 @@ def walk_stage(c, cfg):
       reqs.append(dict(cfg, op='walk', pcs=dumped, bfs=(order == 'bfs'),
                        choice=[[k, sl.enc_opt(v)] for k, v in choice.items()]))
       meta.append((dumped, order, choice, real, mode))
+      defs.append([sl.node_json(x) for x in nodes])
+  # the space the builder calls produced against the DEFINITION they spell (Lean `space` on the same
+  # calls): where they differ the walk is judged against the definition as well
+  built = c.lean('C16', [dict(cfg, op='space', nodes=d) for d in defs[::2]])
+  rereqs, remeta = [], []
+  for i, b in enumerate(built):
+    dumped = meta[2 * i][0]
+    if 'ok' in b and b['ok'] != dumped:
+      for j in (2 * i, 2 * i + 1):
+        rereqs.append(dict(reqs[j], pcs=b['ok']))
+        remeta.append((j, b['ok']))
+  for (j, want_space), m in zip(remeta, c.lean('C16', rereqs) if rereqs else []):
+    dumped, order, choice, real, mode = meta[j]
+    case = {'definition': defs[j], 'built': dumped, 'defined': want_space, 'order': order,
+            'choice': {k: sl.tag(v) for k, v in choice.items()}}
+    want = m.get('model', {}).get('ok')
+    if real[0] == 'ok' and want is not None and m.get('nodeOK') and sorted(real[1][0]) != sorted(want):
+      c.prop_fail('builder-visits-not-active-in-definition:' + order,
+                  'walking the space the builder calls produced yields %s, the parameters active under the '
+                  'chosen values in the definition those calls spell are %s' % (real[1][0], want), case)
+    else:
+      c.tie_break('builder calls: space built vs definition', case, dumped, want_space)
   model = c.lean('C16', reqs)
   for (dumped, order, choice, real, mode), m in zip(meta, model):
     if 'error' in m:
